@@ -39,6 +39,8 @@ def run(ctx):
     django_h.setup()
     n = SC.generic_layer(ctx, BK, "full", 0) + SC.generic_layer(ctx, BK, "full", 1) + SC.generic_layer(ctx, BK, "full", 2)
     ctx.layer("full-alphabet", k_max=2, filters=n, exhaustive=True)
+    nr = SC.reverse_pass(ctx, BK)
+    ctx.layer("reverse-order-pass", k=1, filters=nr, exhaustive=True, note="same filters, opposite translation history per worker")
     ns = SC.generic_strings(ctx, BK, 2)
     ctx.layer("string-literals", strings=ns, positions=len(SC.string_position_terms(T.Str("x"), BK.cap)), exhaustive=True)
     if ctx.quick:
